@@ -30,9 +30,12 @@ func init() {
 			"judged = the faulted call returned a non-nil error and a count in 0..len(p) (re-derived offline from the logged return values). " +
 			"one event record per injected run goes to an event log and the verdicts are re-derived offline from the log alone (which also verifies that no position is missing). thorough adds real files under strace write(2) error injection (ENOSPC at the k-th write syscall, once and from k on). " +
 			"overlapping calls: a second LIB call (other n, weights, writer; sometimes with a failing writer of its own) runs to completion inside EVERY Write call of a first one (before / after the writer takes the bytes) and inside every call of its weights function; each call is judged against what it writes alone. " +
+			"output volume: instances built to reach 1, 4, 8 and 16 MiB (thorough: a ladder of 20 instances up to 32, 64 and 128 MiB) of WEIGHT TEXT (= sum over the entries of characters + 1) by combining n = 740..1550 (thorough: up to 4220; seeded inside a window per instance) with weights of 1..20 characters (one digit, signed distances of 1-3 digits, 7-8 digit negatives, widths mixed inside every column, 19 digits at MaxInt64 / MinInt64, seeded random); LIB writes into a streaming TSPLIB reader that keeps nothing but the unfinished line and compares every number with weights(i,j) recomputed on the fly (DIMENSION, number count, every entry, row count, row lengths, EOF, calls of weights in range: the verdict of the reader of whole documents, by construction, by self-check on corrupted documents and by a unit that runs both readers on the library's bytes and on those bytes damaged in the harness); thorough also crosses 2048 / 4096 rows, 2^22 / 2^23 entries and 64 KiB per row. " +
+			"write failures at volume (sampled, not exhaustive): on two instances (>= 2^20 short entries in 4 MiB, 19-digit entries in 8 MiB; thorough: four instances up to 64 MiB) a failing write {transient, full count with the bytes dropped; thorough: the four original modes and both full-count modes} is injected at one seeded position in every band of the output [first weight, 1 MiB), [1, 2), [2, 4), [4, 8), ... and at the last write before the trailer; records vbase/vfault, verdicts re-derived offline against the plan. " +
 			"non-trivial = injected run whose faulted write covers bytes of the weight section (or is the zero-length write of its flush), a healthy call that follows a failed one, or a judged pair of overlapping calls; distinct by construction (n, weights, writer, mode, position)",
 		Assumptions: []string{
 			"oracle: TSPLIB reader written from the TSPLIB 95 description (harness code, self-checked on hand-written documents and 21 corrupted ones)",
+			"large outputs are read by a streaming form of the same reader (same keywords, same integer syntax, same precedence of the errors; only the unfinished line is kept); weight text of an instance = sum over the n(n+1)/2 entries of (characters of the entry in decimal + 1)",
 			"integers are read with strconv.ParseInt (base 10, 64 bit); rows are the lines of the weight section, numbers separated by blanks, any alignment",
 			"a write 'fails' when Write returns a non-nil error, whatever the error value and whatever the count in 0..len(p) (zero, short or FULL: io.Writer allows a non-nil error with n == len(p)) and whether or not the writer kept the bytes; a short or zero count with a nil error, and a count outside 0..len(p), is a contract violation of the writer and is recorded, not judged",
 			"section of a fault position = byte range of that write in the fault-free output relative to the EDGE_WEIGHT_SECTION line and the EOF line (a write may cover several parts)",
@@ -61,6 +64,11 @@ func init() {
 			"wtype:returned_by_the_device:count=full,err!=nil",
 			"seq:calls:healthy:after-full-error-dropped", "seq:calls:healthy:after-full-error-kept-permanent",
 			// overlapping calls
+			// output volume: the ladder of weight text, short and 20-character weights, every entry read by the streaming reader, failures beyond 4 MiB
+			"volume:instances_checked", "volume:entries_checked_by_the_streaming_reader", "volume:weight_text>=1MiB", "volume:weight_text>=4MiB", "volume:weight_text>=8MiB", "volume:weight_text>=16MiB",
+			"volume:output>=16MiB", "volume:entries>=2^20", "volume:rows>1024", "volume:entries:width=01", "volume:entries:width=04", "volume:entries:width=19", "volume:entries:width=20",
+			"volume:readers_agree_on_library_output", "volume:readers_agree_on_damaged_output",
+			"volume:fault_runs:transient", "volume:fault_runs:full-error-dropped", "volume:failed_writes_reaching>=4MiB", "volume:failed_writes_reaching>=8MiB", "offline:volume:records_judged", "offline:volume:judged:failed_write_reaching>=4MiB",
 			"nested:calls_overlapped:in-write:bytes-pending", "nested:calls_overlapped:in-write:bytes-taken", "nested:calls_overlapped:in-weights", "nested:pairs_judged", "nested:inner_call_with_a_write_fault:full-error-dropped"},
 	})
 }
@@ -261,6 +269,7 @@ type event struct {
 	Header string      `json:"header,omitempty"` // the bytes before the weight section
 	Modes  []string    `json:"modes,omitempty"`  // modes enumerated over all positions for this base
 	Plan   *samplePlan `json:"plan,omitempty"`   // sampled plane ("sbase"): which positions are injected
+	Picks  []int       `json:"picks,omitempty"`  // write failures at volume ("vbase", volume.go): the positions that are injected
 	// writer-type plane ("wbase"/"wfault", writers.go)
 	ID       string `json:"id,omitempty"`
 	Kind     string `json:"kind,omitempty"`
@@ -575,6 +584,11 @@ func run(c *engine.Ctx) {
 			}
 		}
 	}
+
+	// 4. output VOLUME: instances of 1 .. 16 (thorough 128) MiB of weight text read
+	// by a streaming reader, and write failures far into them (volume.go).
+	// (last, so that the units before it keep their place in the shards)
+	volumeUnits(c)
 }
 
 // ---- offline checker ----------------------------------------------------------
@@ -587,7 +601,7 @@ func finish(s *engine.Super) {
 		seen map[string][]bool
 	}
 	bases := map[string]*baseInfo{}
-	var faults, sbases, sfaults, wbases, wfaults []event
+	var faults, sbases, sfaults, wbases, wfaults, vbases, vfaults []event
 	bad, nBase := 0, 0
 	s.EachLine(stream, func(line []byte) {
 		var ev event
@@ -625,6 +639,10 @@ func finish(s *engine.Super) {
 			wbases = append(wbases, ev)
 		case "wfault":
 			wfaults = append(wfaults, ev)
+		case "vbase":
+			vbases = append(vbases, ev)
+		case "vfault":
+			vfaults = append(vfaults, ev)
 		default:
 			bad++
 		}
@@ -689,7 +707,7 @@ func finish(s *engine.Super) {
 			s.Violation(violKey(ev.Fault.Mode, loc), ev, fmt.Sprintf("LIB returned nil although write %d failed (%d of %d bytes reached the writer)", ev.Fault.Pos, ev.Got, bi.ev.Bytes), "a non-nil error")
 		}
 	}
-	s.AddEval(judged + sampledFinish(s, sbases, sfaults) + typeFinish(s, wbases, wfaults))
+	s.AddEval(judged + sampledFinish(s, sbases, sfaults) + typeFinish(s, wbases, wfaults) + volumeFinish(s, vbases, vfaults))
 	s.AddObs("offline:records_judged", judged)
 	s.AddObs("offline:verdicts_violated", int64(viol))
 	// completeness: every position of every mode of every base
